@@ -37,7 +37,7 @@ Theorem C13_item_aligned : forall types leader after prepend buf_rev taken newli
 Proof. exact item_loop_aligned. Qed.
 Print Assumptions C13_item_aligned.
 
-(* on the fragment (plain paragraphs, quotes, lists of one or more items separated by blank lines (same bullet, or same delimiter with any numbers; the items but the last loose); any size and depth): the line numbers of ALL blocks, nested
+(* on the fragment (plain paragraphs, quotes, lists of one or more items, each followed by a blank line or directly by the next (same bullet, or same delimiter with any numbers; an item followed by a blank line or holding two blocks is loose, the list is tight only if no item is); any size and depth): the line numbers of ALL blocks, nested
    ones included, are the positions at which the generator-side function `spell` wrote them *)
 Theorem C13_fragment_line_numbers : forall types t f ln st,
   fragment_config types = true -> wf_b t = true -> (depth t <= f)%nat ->
